@@ -111,4 +111,35 @@ PROPS = {
         "assumptions": ["'never rounds in the user's favour' is judged as the statement defines it (round trips, Drift decrement >= increment); comparison against the exact quotient allows the derived truncation error of the scaled supplies"],
         "floors": {"quick": {"C20.round_trips": 50000, "C20.monotonicity_pairs": 20000, "C20.adjust_i64/some": 10000, "C20.drift_inc_dec/ok": 10000}},
     },
+    "C08": {
+        "engines": [storm("matrix")],
+        "rule": "even shards: matrix over twin groups - every listed instruction x every signer identity (authority, stranger, 7 group roles, fee admin, other group's admin, no signature) x every single substitution of a bound account (foreign group twin, sibling bank's vault/authority, clone owned by another program, wrong sysvar / token program); a cell counts only when its positive control succeeded; odd shards: attribution monitor over the administrative storm (every change of an account's balances / every role-signed instruction must be attributable to an entitled signer); distinct = (cell kind, instruction, identity or substitution, outcome)",
+        "assumptions": COMMON_ASSUMPTIONS + ["the table of entitled signers and bound slots is written from the statement and the instruction doc comments (DESIGN App. A)"],
+        "floors": {"quick": {"C08.matrix_controls_ok": 300, "C08.matrix_signer_cells": 3000, "C08.matrix_substitution_cells": 1000}},
+        "exhaustive_note": "exhaustive over the listed cases x identities x substitutions per world",
+    },
+    "C12": {
+        "engines": [storm("admin")],
+        "rule": "each evaluation is one bank image changed by a delegated-admin instruction (field-level diff against the role's mask built with offset_of!), one instruction executed on a frozen bank (protected fields and freeze bit), or one deleverage withdrawal (reference daily window); distinct = (instruction, set of changed fields) pairs",
+        "assumptions": COMMON_ASSUMPTIONS,
+        "floors": {"quick": {"C12.delegated_instructions/ConfigureBankInterestOnly": 100, "C12.delegated_instructions/ConfigureBankLimitsOnly": 100, "C12.delegated_instructions/ConfigureBankEmode": 100, "C12.delegated_instructions/UpdateEmissionsParameters": 100, "C12.instructions_on_frozen_bank/ConfigureBank": 50, "C12.instructions_on_frozen_bank/PropagateStakedSettings": 10, "C12.deleverage_withdrawals": 5}},
+    },
+    "C13": {
+        "engines": [storm("admin")],
+        "rule": "each evaluation is one accepted configuration-writing instruction whose post-state is judged against the listed inequalities, e-mode leverage caps (caps read at acceptance time) and the killed-state rule; distinct = quantised (weights, tier, state) and (e-mode entries, liability weights) tuples",
+        "assumptions": COMMON_ASSUMPTIONS + ["the initial-implies-maintenance consequence is implied by the checked inequalities (monotone valuation); it is additionally exercised by C04/C05 at equal prices"],
+        "floors": {"quick": {"C13.accepted_config_writes/ConfigureBank": 500, "C13.accepted_config_writes/ConfigureBankEmode": 200, "C13.accepted_config_writes/CloneEmode": 100, "C13.accepted_config_writes/PropagateStakedSettings": 10}},
+    },
+    "C14": {
+        "engines": [storm("matrix")],
+        "rule": "even shards: matrix financial instruction x bank state {Paused, ReduceOnly, Killed via a real wipe-out} with positive controls, reduce-only valuation cells, and protocol-pause timing cells at start+{0,1,1799,1800,1801} with three propagation orders, committed so that the behavioural oracle (no vault / position movement during the group's pause window) sees them; odd shards: storm; distinct = (cell, state, outcome, error code)",
+        "assumptions": COMMON_ASSUMPTIONS + ["'in force for a group' is defined by the pause state recorded in the group's own cache (DESIGN 4 C14)"],
+        "floors": {"quick": {"C14.matrix_controls_ok": 100, "C14.matrix_state_cells": 200, "C14.pause_window_cells": 300, "C14.after_expiry_cells": 40, "scen.bank_killed": 2}},
+    },
+    "C19": {
+        "engines": [storm("admin")],
+        "rule": "each evaluation is one fee collection (token deltas of the five accounts vs bucket reductions), one draw-down of a fee / insurance vault (signer rule), one emissions credit / payout (conservation, proportional bound, destination) or one commit-time emissions-vault cover check; distinct = (clamp class, bucket signs, fractional, transfer-fee) and emission event classes",
+        "assumptions": COMMON_ASSUMPTIONS,
+        "floors": {"quick": {"C19.collections": 300, "C19.emission_payouts": 50, "C19.insurance_vault_drawdowns/WithdrawInsurance": 20}},
+    },
 }
